@@ -155,6 +155,15 @@ def worker(args, scratch):
                         res["violations"].append(["unattributable-bytes-upstream", {"host": name, "head": u.raw_head.decode("latin-1")[:300]}])
                 if m.errors:
                     res["violations"].append(["malformed-bytes-upstream", {"host": name, "errors": m.errors[:3]}])
+        # policy lookup failure (the key-keeper state task is gone): the lookup must report an error (-> 500), never 'no rules' (-> relayed)
+        for ep in ("wireserver", "hostga", "imds"):
+            ip, port = wproxy.DESTS[ep]
+            o = w.shim.call("rules_lookup_dead_state", ip=ip, port=port)
+            res["evaluations"] += 1
+            cnt["policy_lookup_failure_probes"] = cnt.get("policy_lookup_failure_probes", 0) + 1
+            res["nontrivial"].append("policy-lookup-failure:%s" % ep)
+            if o.get("outcome") != "error":
+                res["violations"].append(["policy-lookup-failure-treated-as-no-rules", {"endpoint": ep, "outcome": o}])
         for p in w.shim.panics():
             res["violations"].append(["panic:%s" % p.get("location"), p])
     finally:
@@ -172,7 +181,6 @@ def run(tier, rep):
                             "non-trivial = any refusal branch, unattributed/odd attribution, or a non-disabled rule set on the destination; distinct by (branch, method, attribution, user)")
     for res in sandbox.run_many("vf.props.c01", "worker", args, workers=shards, timeout=900):
         rep.merge_worker(res)
-    rep.coverage["branch_500_observed"] = 0
     rep.assumptions += ["hook H1 stands in for the kernel audit map (lookup/remove); the aya glue is bypassed",
-                        "the 500 branch (policy lookup failure) cannot be driven from the boundary and is not covered",
+                        "the 500 branch (policy lookup failure) cannot be driven end to end (all actors live in one runtime); it is probed at the public lookup function with a key-keeper state whose actor is gone",
                         "precedence between simultaneously applicable refusal reasons is not judged (any applicable status accepted)"]
